@@ -10,6 +10,15 @@ def run(tier, seed):
     import contracts.parser_core  # noqa: F401
     res = lexreplay.attach(run_functions(LX.C09_FUNCTIONS + ["CLexer.input", "CLexer._init_state"], "C09/smt", tier))
     res.add(rx_obligations.c09_rx_obligations(tier))
+    # "each literal kind": every well-formed literal must come back as ONE token of its class, so the literal languages of the
+    # rule table (as shadowed by earlier rules) are part of this property too
+    rx = rx_obligations.c10_obligations(tier)
+    rx.obs = [o for o in rx.obs if o.name.startswith(("C10/lang", "C10/priority"))]
+    for o in rx.obs:
+        o.name = "C09/rx/" + o.name[4:]
+    res.add(rx)
+    from props import directives
+    res.add(directives.obligations("C09"))
     from props import ppline
     pl = ppline.obligations(tier)
     for o in pl.obs:
